@@ -31,21 +31,21 @@ Definition mism_vfee := Eval vm_compute in
 Print mism_vfee.
 (* call-site level: each entry point of the node (0 user, 1 peer, 2 block
    creation) runs the hard rules, then the soft rules with ITS OWN parameter set
-   (Blockchain.VerifySingleTxnSoftHardConstraints); offered transactions are
-   structurally valid and correctly signed (pre = None) *)
-Definition c_entry := (Z * (Z * error) * Z * list uxin * list txout * dist * (vparams * vparams * vparams) * res verdict)%type.
+   (Blockchain.VerifySingleTxnSoftHardConstraints); [pre] is the verdict of the
+   structural / signature / duplicate-output checks computed by the implementation *)
+Definition c_entry := (Z * (Z * error) * Z * list uxin * list txout * dist * (vparams * vparams * vparams) * error * res verdict)%type.
 Definition pick_params (entry : Z) (ps : vparams * vparams * vparams) : vparams :=
   let '(pu, pn, pc) := ps in if entry =? 0 then pu else if entry =? 1 then pn else pc.
 Definition entry_model (entry : Z) (size : Z * error) (T : Z) (ins : list uxin) (outs : list txout)
-    (d : dist) (ps : vparams * vparams * vparams) : res verdict :=
-  bind (Hours.VerifySingleTxnHardConstraints None T ins outs) (fun v =>
+    (d : dist) (ps : vparams * vparams * vparams) (pre : error) : res verdict :=
+  bind (Hours.VerifySingleTxnHardConstraints pre T ins outs) (fun v =>
   match v with
   | Some _ => Val v
   | None => VerifySingleTxnSoftConstraints size T ins outs d (pick_params entry ps)
   end).
 Definition mism_entry := Eval vm_compute in
-  failing (fun c : c_entry => let '(entry, size, T, ins, outs, d, ps, obs) := c in
-    let m := entry_model entry size T ins outs d ps in
+  failing (fun c : c_entry => let '(entry, size, T, ins, outs, d, ps, pre, obs) := c in
+    let m := entry_model entry size T ins outs d ps pre in
     if entry =? 2 then Bool.eqb (is_val_none m) (is_val_none obs) && negb (match obs with Panic => true | _ => false end)
     else res_verdict_matches m obs) cases_entry.
 Print mism_entry.
